@@ -142,6 +142,8 @@ def worker(spec):
             modglue = {}
             modflavor = {}
             builtin_registered = set()
+            reg_problem = []
+            state = {"last_end": 0}   # length of LOG when the previous extraction / registration returned
             retired = []  # module objects removed earlier (candidates for re-insertion)
             ops = []
             res.evaluations += 1
@@ -155,17 +157,65 @@ def worker(spec):
                         continue
                     flavor = rng.choice(HIST_FLAVORS)
                     m = mk(n, flavor)
+                    # stackscope registers at most one built-in glue per module name (builtin_glue asserts it);
+                    # registration goes through the real decorator, either before the module is there (the
+                    # entry waits) or after (imported before stackscope: the decorator acts at once)
+                    with_builtin = flavor in ("builtin", "both", "raising_builtin", "importing_builtin") \
+                        and n not in _glue.builtin_glue_pending and n not in builtin_registered
+                    reg_first = rng.random() < 0.5
+
+                    def register():
+                        builtin_registered.add(n)
+                        pending_b[n] = flavor
+                        mark = len(LOG)
+                        with warnings.catch_warnings(record=True) as wreg:
+                            warnings.simplefilter("always")
+                            try:
+                                _glue.builtin_glue(n)(mk_builtin(n, flavor))
+                            except Exception as ex:  # noqa
+                                reg_problem.append("builtin_glue(%r) registration raised %r" % (n, ex))
+                        wglue = [x for x in wreg if issubclass(x.category, RuntimeWarning) and "glue" in str(x.message)]
+                        ran = [(e[1], e[2], e[3]) for e in LOG[mark:] if e[0] == "start"]
+                        # with the module already there the decorator may install at once - whichever glue is due
+                        # for that module, at most once - or leave it to the next extraction; anything else is wrong
+                        mod = present.get(n)
+                        if mod is not None and modglue.get(id(mod)):
+                            due = ("module", n, id(mod))
+                            raising = modflavor.get(id(mod)) == "raising_module"
+                        elif mod is not None:
+                            due = ("builtin", n, None)
+                            raising = flavor == "raising_builtin"
+                        else:
+                            due = None
+                            raising = False
+                        if ran and (due is None or ran != [due]):
+                            reg_problem.append("registering built-in glue for %r ran %r (due: %r)" % (n, ran, due))
+                        elif ran:
+                            res.count("glue_installed_at_registration")
+                            if due[0] == "module":
+                                modglue[id(mod)] = False
+                            pending_b.pop(n, None)   # never both kinds
+                            if len(wglue) != (1 if raising else 0):
+                                reg_problem.append("%d glue warnings at registration, raising=%r" % (len(wglue), raising))
+                        elif wglue:
+                            reg_problem.append("glue warning at registration although nothing ran")
+                        state["last_end"] = len(LOG)
+
+                    if with_builtin and reg_first:
+                        register()
                     sys.modules[n] = m
                     present[n] = m
                     modglue[id(m)] = flavor in ("module", "both", "raising_module", "importing_module")
                     modflavor[id(m)] = flavor
-                    # stackscope registers at most one built-in glue per module name (builtin_glue asserts it)
-                    if flavor in ("builtin", "both", "raising_builtin", "importing_builtin") \
-                            and n not in _glue.builtin_glue_pending and n not in builtin_registered:
-                        builtin_registered.add(n)
-                        _glue.builtin_glue_pending[n] = mk_builtin(n, flavor)
-                        pending_b[n] = flavor
-                    ops.append(("add", n, flavor))
+                    if with_builtin and not reg_first:
+                        res.count("builtin_registered_with_module_present")
+                        register()
+                    ops.append(("add", n, flavor) + ((("registered-first",) if reg_first else ("registered-after",))
+                                                      if with_builtin else ()))
+                    if reg_problem:
+                        res.violation(kind="glue history", history=repr(ops), problem=reg_problem[0], interp=interp,
+                                      mechanism=None)
+                        break
                 elif op == "readd":
                     cands = [m for m in retired if m.__name__ not in present]
                     if not cands:
@@ -211,9 +261,10 @@ def worker(spec):
                             exp.append(("builtin", n, None))
                             if pending_b.pop(n) == "raising_builtin":
                                 exp_raising += 1
-                    got = [(e[1], e[2], e[3]) for e in LOG[before:] if e[0] == "start"]
-                    glue_warnings = [x for x in w if issubclass(x.category, RuntimeWarning)
-                                     and "glue" in str(x.message)]
+                    # nothing may have run between the previous extraction / registration and this extraction
+                    got = [(e[1], e[2], e[3]) for e in LOG[state["last_end"]:] if e[0] == "start"]
+                    state["last_end"] = len(LOG)
+                    glue_warnings = [x for x in w if issubclass(x.category, RuntimeWarning) and "glue" in str(x.message)]
                     if exp:
                         expected_any = True
                     if exp_raising:
